@@ -2,19 +2,29 @@
 from common_props import COMMON_TRUSTED
 
 CFG = {
-    "engines": [["peerinput", 70, 1500], ["frag", 120, 1500]],
+    "engines": [["peerinput", 70, 1500], ["frag", 120, 1500], ["peerfx", 300, 6000]],
     "rule": "peerinput: a channel (server role, relay role with a backend) hosted in a CHILD process is attacked by a raw TCP peer with "
             "generated sequences: every message type byte, truncated payloads, payload bytes set to boundary values, size-field games, "
             "duplicate/unknown ids, frames in illegal order, short-ttl call then id re-use, error/cancel/init/ping variants, hostile "
             "handshakes, unknown checksum types, chunk-less fragments, split arg1 with a bad second fragment, lying counts, random frames, "
             "plus legitimate controls; after each sequence: child alive, attacked connection closed or answering a ping, a legitimate call "
             "on a fresh connection answered. Client side: the child's outbound call answered with hostile frames. frag/fragparse: hostile "
-            "fragment payloads through the real parser vs the model. All sequences non-trivial; distinct by description and content.",
+            "fragment payloads through the real parser vs the model. peerfx: per-frame correspondence of the dispatch model (handle_frame): a real "
+            "channel in this process dials a raw peer, which sends generated frames one at a time (valid / duplicate-id / truncated / byte-mutated "
+            "call reqs, continuations and response-side frames for unknown and in-flight ids, error frames (truncated, protocol code, other codes), "
+            "cancels, pings with payloads, unknown types, init after the handshake, size-field lies, after local Close, with a stalled writer and a "
+            "1-3 slot send buffer); after each frame: frames received, calls dispatched, frames queued on exchanges, contexts cancelled, exchanges "
+            "stopped, and a snapshot of connection state + both exchange maps are compared with the model; oracle from the statement: a frame built "
+            "to be malformed/illegal is only dropped, answered by one error frame, or shuts this connection down, dispatches nothing, touches no "
+            "other exchange, and the reader goroutine always returns to reading. All sequences non-trivial; distinct by description and content.",
     "trusted_base": COMMON_TRUSTED + [
         "modelled by hand (tied by correspondence, engine frag/fragparse and msg): parseInboundFragment, chunk loop, checksum pool lookup, "
         "message decoders, ReadBody size test, ReadBuffer guards; regenerated from source: Connection.handleFrameRelay routing, frameTypeFor, "
         "PayloadSize, checksumCount, ChecksumSize",
-        "NOT modelled (oracle only, child process): dispatch goroutines, exchange-set locking, handler scheduling, relay items under hostile input",
+        "modelled by hand (tied by correspondence, engine peerfx): Connection.readFrames iteration, handleFrameNoRelay, handleCallReq up to dispatch, "
+        "handleCallReqContinue/handleCallRes/handleCallResContinue/handleError/handleCancel/handlePingReq/handlePingRes, SendSystemError, "
+        "protocolError, connectionError, close, checkExchanges, mexset/mex forwardPeerFrame",
+        "NOT modelled (oracle only, child process): dispatch goroutines after the hand-over, exchange-set locking, handler scheduling, relay items under hostile input",
     ],
     "assumptions": ["clause (c) - no goroutine spins or deadlocks, other connections keep being served - is a scheduler-level liveness property: "
                     "exercised by the liveness probes, not proved",
